@@ -1,8 +1,9 @@
 From Coq Require Import Extraction ExtrOcamlBasic NArith ZArith.
-From Storage Require Import Base.Bytes Links.LinkModel Links.SetLinksMerge Links.RefCount Links.LinkMachine Links.HierMachine Links.HierWhere.
+From Storage Require Import Base.Bytes Links.LinkModel Links.SetLinksMerge Links.RefCount Links.LinkMachine Links.HierMachine Links.HierWhere Links.HierStrategy.
 Extraction Language OCaml.
 Definition force_types : nat * N * Z := (O, 0%N, 0%Z).
 Extraction "c05_model.ml" force_types init_state step run_ops first_failure run_tx
   pres lnk rc rows get_links is_linked rc_rows get_link_counts set_links set_links_diff sort_ids
   hinit hstep run_hops hfirst_failure run_htx view lvl nkids npairs ext_blocked
-  has_plain has_rc xstep run_xops xfirst_failure run_xtx where_ids.
+  has_plain has_rc xstep run_xops xfirst_failure run_xtx where_ids
+  sstep run_sops sfirst_failure run_stx.
